@@ -812,6 +812,124 @@ def _layout_programs():
     return out
 
 
+LEX_REPLAY = """
+import io, contextlib
+import nsl.lexer as L
+text = {{text}}
+lx = L.NslLexer()
+if not hasattr(lx, 'lexer'):
+    with contextlib.redirect_stdout(io.StringIO()), contextlib.redirect_stderr(io.StringIO()):
+        lx.Build() if hasattr(lx, 'Build') else lx.build()
+lx.input(text)
+bad = []
+while True:
+    tok = lx.token()
+    if tok is None: break
+    inner = lx.lexer if hasattr(lx, 'lexer') else lx
+    matched = text[tok.lexpos:inner.lexpos]
+    if len(str(tok.value)) != len(matched) or str(tok.value) != matched:
+        bad.append((tok.type, tok.lexpos, tok.value, matched))
+print('tokens whose value is not the text they were matched from (type, offset, value, matched text):', bad[:6])
+if bad: print('REPLAY-CONFIRMED')
+"""
+
+
+@family("C20.lex.frame", props=["C20"], functions=["nsl.lexer::NslLexer", "nsl.parser::NslParser.__GetLocation"],
+        assumptions=["PLY axiom: the token handed to a rule's action has value = the matched text and lexpos = its offset; rules given as plain regular expressions have no action",
+                     "syntactic frame condition, decided on the source of every t_* action of NslLexer on every run: the action stores to nothing but t.type, t.lineno and t.lexer.lineno, "
+                     "does not rebind or hand on the token, and returns the token it was given or nothing (t_error, which yields no token, may also call t.lexer.skip)"])
+def c20_lex_frame(R):
+    """The parser's __GetLocation takes [lexpos, lexpos + len(value)) for the range of a token; that is the token's text only if no lexer action
+    changes value or lexpos.  Frame condition on every action, for all token texts."""
+    import ast as pyast, inspect, textwrap
+    L = resolve("nsl.lexer::NslLexer")
+    LEX = "nsl.lexer::NslLexer"
+    sample = "f(1.5, 0.5f, 1.f, 2e3, 3.0F, 1.0L, 12, 0x1F, 017, 5u, foo, for, x_1) \"s\" a<=b"
+    rp = dict(script=LEX_REPLAY.replace("{{text}}", repr(sample)))
+    n = 0
+    for name, fn in sorted(vars(L).items()):
+        if not name.startswith("t_") or not inspect.isfunction(fn):
+            continue
+        n += 1
+        try:
+            fd = pyast.parse(textwrap.dedent(inspect.getsource(fn)).lstrip("﻿")).body[0]
+        except (OSError, SyntaxError) as e:
+            R.undecided(f"C20.lex.frame[{name}]", LEX + "." + name, f"no source: {e}")
+            continue
+        params = [x.arg for x in fd.args.args]
+        tok = params[1] if len(params) > 1 else None
+        problems, unknown = [], []
+
+        def chain(node):
+            parts = []
+            while isinstance(node, pyast.Attribute):
+                parts.append(node.attr)
+                node = node.value
+            if isinstance(node, pyast.Subscript):
+                return chain(node.value)
+            return (node.id if isinstance(node, pyast.Name) else None), tuple(reversed(parts))
+
+        allowed = {("type",), ("lineno",), ("lexer", "lineno")}
+        for node in pyast.walk(fd):
+            targets = []
+            if isinstance(node, pyast.Assign):
+                targets = node.targets
+            elif isinstance(node, (pyast.AugAssign, pyast.AnnAssign)):
+                targets = [node.target]
+            elif isinstance(node, pyast.Delete):
+                targets = node.targets
+            elif isinstance(node, (pyast.For, pyast.comprehension)):
+                targets = [node.target]
+            elif isinstance(node, pyast.NamedExpr):
+                targets = [node.target]
+            flat = []
+            for t in targets:
+                flat.extend(t.elts if isinstance(t, (pyast.Tuple, pyast.List)) else [t])
+            for t in flat:
+                if isinstance(t, pyast.Name) and t.id == tok:
+                    unknown.append(f"line {t.lineno}: the token variable is rebound")
+                root, parts = chain(t) if isinstance(t, (pyast.Attribute, pyast.Subscript)) else (None, ())
+                if root == tok and parts not in allowed:
+                    problems.append(f"line {t.lineno}: stores to {tok}.{'.'.join(parts)}")
+            if isinstance(node, pyast.Call):
+                fname = chain(node.func) if isinstance(node.func, pyast.Attribute) else ((node.func.id if isinstance(node.func, pyast.Name) else None), ())
+                args = list(node.args) + [k.value for k in node.keywords]
+                if any(isinstance(x, pyast.Name) and x.id == tok for x in args):
+                    (problems if fname[0] in ("setattr", "delattr") else unknown).append(f"line {node.lineno}: the token is handed to {pyast.unparse(node.func)}")
+                if fname[0] == tok and fname[1][:1] == ("lexer",) and not (name == "t_error" and fname[1] == ("lexer", "skip")):
+                    unknown.append(f"line {node.lineno}: calls {pyast.unparse(node.func)}")
+                if fname[0] == tok and fname[1] and fname[1][-1] in ("__setattr__", "__delattr__"):
+                    problems.append(f"line {node.lineno}: {pyast.unparse(node.func)}")
+            if isinstance(node, pyast.Attribute) and node.attr == "__dict__" and chain(node)[0] == tok:
+                unknown.append(f"line {node.lineno}: {tok}.__dict__")
+            if isinstance(node, pyast.Return) and node.value is not None and not (isinstance(node.value, pyast.Name) and node.value.id == tok) \
+                    and not (isinstance(node.value, pyast.Constant) and node.value.value is None):
+                problems.append(f"line {node.lineno}: returns {pyast.unparse(node.value)} instead of the token")
+        oid = f"C20.lex.frame[{name}]"
+        if problems:
+            R.fail(oid, LEX + "." + name, "; ".join(problems), replay=rp, backend="frame-check")
+        elif unknown:
+            R.undecided(oid, LEX + "." + name, "; ".join(unknown))
+        else:
+            R.ok(oid, LEX + "." + name, "frame-check", detail="assigns only type / lineno")
+    R.check("C20.lex.frame.actions-found", LEX, n >= 3, detail=f"{n} token actions")
+    # the consumer: __GetLocation(p, i) is [p.lexpos(i), p.lexpos(i) + len(p[i]))
+    import nsl.parser as P
+
+    def run(ctx):
+        off, ln = ctx.int("off"), ctx.int("len")
+        ctx.assume(off >= 0)
+        ctx.assume(ln >= 0)
+
+        class V:
+            sym_length = ln
+        with patched(P, len=_len2):
+            loc = P.NslParser._NslParser__GetLocation(new_parser(), FakeP([V()], [off]), 1)
+        return [("range-is-offset-plus-length", z3.And(term(loc.GetBegin()) == off.t, term(loc.GetEnd()) == off.t + ln.t))]
+
+    verify(R, "C20.lex.consumer", "nsl.parser::NslParser.__GetLocation", run, lambda m, c: rp)
+
+
 @family("C20.e2e", props=["C20"], functions=["nsl.parser::NslParser.Parse", "nsl.passes.UpdateLocations::UpdateLocationsVisitor.v_Generic", AST + "::Location.__str__"],
         assumptions=["BOUNDED stand-in (never counted as proved): one token sequence in six layouts (spaces, tabs, blank lines, one token per line) parsed by the real parser"])
 def c20_e2e(R):
